@@ -24,8 +24,10 @@ macro_rules! __array_map {
         |$i:ident| $get_input:expr,
         ($($pattern:tt)*) $(-> $ret:ty)? $mapper:block $(,)?
     ) => ({
-        let len = $array.len();
         let mut out = $crate::__::uninit_array_of_len(&$array);
+        // not using method call syntax,
+        // to avoid calling methods from traits that the caller has in scope.
+        let len = <[_]>::len(&out);
 
         let mut $i = 0usize;
         while $i < len {
